@@ -598,7 +598,7 @@ func Run(r *hk.Run) {
 
 	nScen, nOps, nBig := 120, 45, 30
 	if r.Thorough() {
-		nScen, nOps, nBig = 2000, 70, 400
+		nScen, nOps, nBig = 1500, 70, 300
 	}
 	for i := 0; i < nScen+nBig; i++ {
 		big := i >= nScen
